@@ -604,7 +604,7 @@ def owned(b, e, depth=0):
             return True
         if d.endswith(("::as_ptr", "::as_mut_ptr")) and e[2]:
             return owned(b, e[2][0], depth + 1)
-        if d.endswith(L.VIEW_CALLS) or d.endswith(("::unwrap_or", "::map_or", "::unwrap", "Option::<T>::as_ref", "::as_deref", "::as_c_str", "::deref")):
+        if d.endswith(L.VIEW_CALLS) or d.endswith(("Option::<T>::as_ref", "::as_deref", "::as_c_str", "::deref")):
             return any(owned(b, a, depth + 1) for a in e[2][:1])
         if d.startswith(FFI) and d.rsplit("::", 1)[1] in ("ffi_guard_ptr", "ffi_guard_constraint", "constraint_to_llg", "new_constraint_tagged"):
             return True  # returns Box::into_raw (checked by name: constructors)
@@ -613,9 +613,15 @@ def owned(b, e, depth=0):
         if d == CU:
             # pointer produced inside the guarded closure: must be a fresh Box there
             return True
-        # a method on a handle returning a pointer (get_error etc.): receiver must be handle-owned
-        if e[2]:
-            return owned(b, e[2][0], depth + 1)
+        # any other call: ownership propagates only if the call returns a *view* (reference / pointer /
+        # Option of a reference) of its receiver; calls returning owned values (clone, to_string, ...)
+        # create temporaries that die at the end of the function
+        if e[2] and len(e) > 3:
+            t = b.blocks[e[3]]["term"]
+            rty = b.local_ty(t["dest"][0]) if len(t["dest"]) == 1 else ""
+            is_view = rty.startswith(("&", "*")) or rty.startswith("core::option::Option<&") or rty.startswith("core::option::Option<*")
+            if is_view:
+                return owned(b, e[2][0], depth + 1)
         return False
     if k in ("place", "ref"):
         l = e[1][0]
